@@ -39,7 +39,15 @@ func refValidate() refValidation {
 			rv.UnsupportedWhy[ref.Unsupported]++
 			continue
 		}
+		steps := 0
+		vexp.SetStepFn(func() {
+			steps++
+			if steps > 2000000 {
+				panic(stepBudget{})
+			}
+		})
 		impl := awk.Exec(prog, &interp.Config{Stdin: strings.NewReader(t.In)})
+		vexp.SetStepFn(nil)
 		implOK := impl.Panic == "" && ((t.Err == "") == (impl.Err == nil)) && impl.Out == t.Out
 		refOK := ((t.Err == "") == (ref.Err == "")) && ref.Stdout == t.Out
 		switch {
